@@ -45,10 +45,9 @@ def compare(op, impl, model):
     if impl == model:
         return True
     if kind == "rt":
-        # the model lists every bin that a correctly rounded nearest-detector search may return (ties of the rounding);
-        # `undefined`: both end points round to the same detector, the implementation reads a never-written table entry
+        # the model lists every result that a correctly rounded nearest-detector search may return (ties of the rounding)
         cands = [c.strip() for c in model.split("|")]
-        return impl in cands or "undefined" in cands
+        return impl in cands
     if kind in ("coord", "tofb", "dpos", "ovl", "arc"):
         return _floats_ok(kind, impl, model)
     if kind == "det":
@@ -106,7 +105,12 @@ def main(tier, replay):
     chk.assumptions += ["32-bit overflow not modelled", "binary32 rounding inside STIR is bounded, not modelled: trigonometric coordinates are recomputed in binary64 by the model",
                         "bins of arc-corrected data with |s| >= 0.995 R (outside the detector ring) are skipped",
                         "detector pairs on the same flat bucket of a blocks scanner (degenerate lines along the bucket face) are skipped",
-                        "segments clipped to a single ring difference with the axial size of a compressed segment (C01 known finding) are skipped"]
+                        "segments clipped to a single ring difference with the axial size of a compressed segment (C01 known finding) are skipped",
+                        "the Lean model describes the code with the fixes build/fixes/C12-1..5 (coincident nearest detectors -> miss; max_delta >= span/2; "
+                        "TOF in arc-corrected get_bin; generic get_tantheta over the chord length; last arc-corrected box one bin wide)",
+                        "crystal-map look-up of ProjDataInfoGenericNoArcCorr::get_bin, overlap_interpolate/ArcCorrection on rows and all floating-point "
+                        "coordinates are not theorems: correspondence (rows: exact rational model + forward error bound) and oracle only",
+                        "round trip theorems are about exact angles with an arbitrary choice at rounding ties; the correspondence accepts any result in the model's candidate set"]
     if audit:
         vlib.proof_coverage(chk, audit, "cd lean && lake build StirVerif stirdriver && lake env lean ../build/out/Audit_C12.lean")
     return chk.finish()
